@@ -153,6 +153,9 @@ class _UnconditionalPlanar(AbstractBijection):
         """
         wtu = self._act_scale @ self.weight
         m_wtu = -1 + jnp.log(1 + nn.softplus(wtu))
+        if self.negative_slope is not None and self.negative_slope > 1:
+            # Invertibility needs 1 + slope * w^Tu > 0 for both slopes (1, negative_slope)
+            m_wtu = m_wtu / self.negative_slope
         w_norm_sq = jnp.sum(self.weight**2)
         w_norm_sq = jnp.where(w_norm_sq == 0, 1, w_norm_sq)  # Avoid nan if weight is zero
         return self._act_scale + (m_wtu - wtu) * self.weight / w_norm_sq
